@@ -2,8 +2,8 @@
    Witness: swap-in sender; the process dies right after the wallet has broadcast the opening
    transaction and before the next store write (HCrash .. 3).  The last durable record is the
    one written when the agreement arrived: state AwaitAgreement, no OpeningTxBroadcasted, no
-   OpeningTxHex.  After the restart the node has no record of the output it funded (and the
-   swap-in sender waits in AwaitAgreement for ever; a swap-out receiver cancels).
+   OpeningTxHex.  After the restart the node has no record of the output it funded (both maker
+   roles cancel the swap on restart since the negotiation states fail on recovery).
    Replayed on the real code by the directed scenarios "crash=3" of harness/c07_scen.go. *)
 From Coq Require Import String ZArith Bool List.
 From PS Require Import Model.Data Model.Actions Model.Fsm Model.History Model.FsmCorr Model.C07Corr Model.C07Table
